@@ -749,8 +749,8 @@ fn catalog(db: &Arc<LocustDB>, table: &str) -> Cat {
     }
     columns.sort();
     // columns whose basic type is numeric (integer / float) in one partition and string in another: merging ORDERED partial
-    // results of such a column needs least_upper_bound({I64,F64}, {Str,OptStr}), which is unimplemented (open finding
-    // orderby-type-divergent-column-panic); whether it is asked for depends on the order in which the partitions are merged
+    // results of such a column needs least_upper_bound({I64,F64}, {Str,OptStr}), which was unimplemented (finding
+    // orderby-type-divergent-column-panic, fixed by /repo c33fac6: it is Val now); the fact stays in the model line (regression witnesses)
     let mut divergent: Vec<String> = vec![];
     if let Some(parts) = &snap {
         for name in &columns {
